@@ -35,6 +35,11 @@ THEOREMS = [
     "Optyx.Props.C05.extractLP_sound",
     "Optyx.Props.Glue.lpRows_table",
     "Optyx.Props.C05.shortcutInv_iff_sizes",
+    "Optyx.Props.C05.walker_sound_of_source_equations",
+    "Optyx.Props.C05.lp_source_equations_solvable",
+    "Optyx.Props.LPTie.const_unique",
+    "Optyx.Props.LPTie.coeff_unique",
+    "Optyx.Props.LPTie.walk_unique",
 ]
 ASSUMPTIONS = [
     "theorems are over the reals (NumAlg ℝ), the executable model over exact rationals; float rounding / overflow of "
